@@ -777,7 +777,7 @@ func head(b []byte) []byte {
 func init() {
 	run.Register(&run.Engine{ID: "C11", Gen: genC11, Exec: execC11, Meta: run.Meta{
 		Technique:   "deterministic simulation with fault injection: real liteclient ADNL client against an independent spec-level ADNL server over a simulated, faulty TCP byte stream (seeded segmentation, delay, one corruption per run)",
-		Rule:        "one run = one plan drawn from (VERIF_SEED, index): 1-2 connections, up to 12 (quick) / 40 (thorough) packets per direction with sizes from the boundary classes 0..64 KiB (rarely 1 MiB and the 8 MiB limit), latencies 0..200 ms, split/coalesce on in 3/4 of runs, optional server frame with crafted declared length, and in 2/3 of runs exactly one stream fault (flip/subst/truncate/dup/drop/insert) in a chosen frame and region (len/nonce/payload/hash/handshake). Non-trivial = at least one split or stream fault actually fired; distinct = distinct event-log digest (schedule+bytes delivered) among non-trivial runs.",
+		Rule:        "one run = one plan drawn from (VERIF_SEED, index): 1-2 connections, up to 12 (quick) / 40 (thorough) packets per direction with sizes from the boundary classes 0..64 KiB (rarely 1 MiB and the 8 MiB limit), latencies 0..200 ms, split/coalesce on in 3/4 of runs, optional server frame with crafted declared length, and in 2/3 of runs exactly one stream fault (flip/subst/truncate/dup/drop/insert) in a chosen frame and region (len/nonce/payload/hash/handshake); in 1/6 of runs instead the server drops the connection mid-stream (reset, or orderly close with 0-2 vanishing writes), the client reconnects by itself and both directions are judged across the sessions (nothing invented, reordered, duplicated or garbled; everything accepted after the new session is up arrives). The context given to NewConnection is Background, or has a deadline of 1.5-3.5 s that passes while packets flow, or is cancelled as soon as NewConnection returns. Non-trivial = at least one split or stream fault actually fired; distinct = distinct event-log digest (schedule+bytes delivered) among non-trivial runs.",
 		Real:        []string{"liteclient.NewConnection", "liteclient.Connection (Send, reader, ping)", "liteclient.encryptedConn (handshake, send, handleIncomingPackets)", "liteclient.ParsePacket / Packet.marshal", "liteclient key derivation (newKeys, sharedKey, params)"},
 		Simulated:   []string{"TCP (simnet: per-direction segment queues, latency, split/coalesce, corruption, close)", "lite server = independent ADNL implementation (x/crypto curve25519 + math/big, own framer)", "clock (testing/synctest)", "crypto/rand and math/rand (seeded)", "goroutine interleaving at mutex acquisitions (sim-owned locks)"},
 		Assumptions: []string{"SHA-256 collisions and AES-CTR keystream coincidences (2^-256 / 2^-8 per flipped byte of an encrypted length that still fails the checksum) do not occur", "the independent server follows the ADNL-over-TCP description: key id = sha256(0x4813b4c6|pub), X25519 of the Ed25519 keys, AES-CTR session params, frame = len|nonce|payload|sha256(nonce|payload)", "sampling, not enumeration: a clean batch is evidence, not proof"},
